@@ -488,10 +488,6 @@ it2
         }
 //@end
 
-//@fn file=src/algebra/csc/core.rs in="ShapedMatrix for CscMatrix<T>" name=nrows rules=R1 ret=r
-//@contract
-    ensures r == self.m
-//@end
 
 //@fn file=src/algebra/csc/core.rs in="impl<T> CscMatrix<T>" name=get_entry rules=R1,R23 ret=r
 //@contract
